@@ -5,6 +5,7 @@
   Window bounds are rationals `num/den` compared by exact cross-multiplication (DESIGN §3).
 -/
 import Prtpy.Model.KK
+import Prtpy.Model.CKKF
 namespace Prtpy
 
 variable {α : Type}
@@ -47,9 +48,10 @@ def findDiff [BEq α] (items sub : List α) : List α := sub.foldl (fun acc x =>
 
 def spread (sums : List Nat) : Nat := maxL sums - minL sums
 
-/-- 2-way CKK as SNP/RNP call it; on an empty item list the real code raises ValueError (`max([])`) -/
+/-- 2-way CKK as SNP/RNP call it (`optimal(binner, 2, items)`, i.e. `ckkF`: the code after fix F11); on an empty
+    item list the real code raises ValueError (`max([])`) -/
 def ckk2 (v nm : α → Nat) [BEq α] (contents : Bool) (items : List α) (fuel : Nat) : Except Err (Bins α) :=
-  if items.isEmpty then .error .valueError else ckk v nm 2 contents items fuel
+  if items.isEmpty then .error .valueError else ckkF v nm 2 contents items fuel
 
 /-- `sequential_number_partitioning_sy.rec_generate_sets`; state = best partition so far -/
 def snpRec (v nm : α → Nat) [BEq α] (contents : Bool) (fuel : Nat) :
